@@ -1160,27 +1160,65 @@ fn fixed_row(spec: &Spec) -> RowCase {
     }
 }
 
-enum SweepErr {
-    Row(&'static str, RowCase, String),
-    Pair(PairCase, String),
+/// (sub-check, case as JSON, reason)
+type SweepErr = (&'static str, serde_json::Value, String);
+
+struct Walk(u64);
+impl Walk {
+    fn next(&mut self) -> u64 {
+        self.0 = self.0.wrapping_mul(6364136223846793005).wrapping_add(1442695040888963407);
+        // mix of canonical and non-canonical representations
+        self.0 ^ (self.0 >> 29)
+    }
 }
 
 fn sweep_one(spec: &Spec) -> Result<(usize, usize, Stats), SweepErr> {
     use crate::engine::catch;
+    fn guard<T>(sub: &'static str, case: &impl Serialize, r: Result<Result<T, String>, String>) -> Result<T, SweepErr> {
+        r.unwrap_or_else(|p| Err(format!("panic: {}", p))).map_err(|e| (sub, serde_json::to_value(case).unwrap(), e))
+    }
     let c = fixed_row(spec);
     let gate = spec.gate();
+    let (nw, nc) = (gate.0.num_wires(), gate.0.num_constants());
     let mut st = Stats::new();
     st.eval();
-    let flat = |r: Result<Result<(usize, usize), String>, String>| r.unwrap_or_else(|p| Err(format!("panic: {}", p)));
-    let (w, p) = flat(catch(|| {
-        let h = build_honest(spec, &gate, &c)?;
-        check_honest(&gate, &h)?;
-        check_pinned(&c, &gate, &h, &mut st)
-    }))
-    .map_err(|e| SweepErr::Row("pinned", c.clone(), e))?;
-    flat(catch(|| prop_joint(&c, &mut st).map(|_| (0, 0)))).map_err(|e| SweepErr::Row("jointly_pinned", c.clone(), e))?;
+    let (w, p) = guard(
+        "pinned",
+        &c,
+        catch(|| {
+            let h = build_honest(spec, &gate, &c)?;
+            check_honest(&gate, &h)?;
+            check_pinned(&c, &gate, &h, &mut st)
+        }),
+    )?;
+    guard("jointly_pinned", &c, catch(|| prop_joint(&c, &mut st)))?;
     let pc = PairCase { row: c.clone(), picks: (0..64u32).map(|i| (i * 1021 % 65536) as u16).collect() };
-    flat(catch(|| prop_pair(&pc, &mut st).map(|_| (0, 0)))).map_err(|e| SweepErr::Pair(pc.clone(), e))?;
+    guard("pair_pinned", &pc, catch(|| prop_pair(&pc, &mut st)))?;
+    // evaluators and degree on one fixed arbitrary row per parameter value
+    let mut wk = Walk(0x0123_4567_89AB_CDEF);
+    let bc = BaseCase {
+        spec: spec.clone(),
+        pih: [wk.next(), wk.next(), wk.next(), wk.next()],
+        pts: (0..POINTS).map(|_| (0..nw + nc).map(|_| wk.next()).collect()).collect(),
+    };
+    guard("evaluators_base", &bc, catch(|| prop_base(&bc, &mut st)))?;
+    for narrow in [false, true] {
+        let cc = CircuitCase {
+            spec: spec.clone(),
+            narrow,
+            rows: vec![(0..nw + nc).map(|_| [wk.next(), wk.next()]).collect()],
+            pihs: vec![[wk.next(), wk.next(), wk.next(), wk.next()]],
+        };
+        guard("evaluators_circuit", &cc, catch(|| prop_circuit(&cc, &mut st)))?;
+    }
+    let dc = DegCase {
+        spec: spec.clone(),
+        log_n: 2,
+        shift: 7,
+        pih: [wk.next(), wk.next(), wk.next(), wk.next()],
+        coeffs: (0..(nw + nc) * 4).map(|_| [wk.next() % P, wk.next() % P]).collect(),
+    };
+    guard("degree", &dc, catch(|| prop_degree(&dc, &mut st)))?;
     Ok((w, p, st))
 }
 
@@ -1194,6 +1232,7 @@ fn sweep(ctx: &mut Ctx) {
             Ok((w, p, mut st)) => {
                 st.nontrivial.clear(); // the generated sub-checks count distinct cases themselves
                 st.hist.clear();
+                st.samples.clear();
                 ctx.stats.merge(st);
                 let e = table.entry(spec.kind()).or_insert((0, 0, 0, usize::MAX, 0));
                 e.0 += 1;
@@ -1202,12 +1241,8 @@ fn sweep(ctx: &mut Ctx) {
                 e.3 = e.3.min(w);
                 e.4 = e.4.max(w);
             }
-            Err(SweepErr::Row(sub, c, reason)) => {
-                ctx.violation(sub, &c, &reason);
-                return;
-            }
-            Err(SweepErr::Pair(c, reason)) => {
-                ctx.violation("pair_pinned", &c, &reason);
+            Err((sub, case, reason)) => {
+                ctx.violation(sub, &case, &reason);
                 return;
             }
         }
